@@ -292,6 +292,25 @@ def random_init(scene, seed: int, scale: float = 0.5):
     return np.array(E), np.array(H)
 
 
+def balanced_init(scene, stepper, seed: int, fallback: float = 0.05):
+    """Random initial (E, H) whose amplitude matches what the scene's sources build up by the last step.
+
+    A fixed amplitude would drown weak sources (ramped cw / delayed pulses inject 1e-9..1e-1 within
+    ten steps) under the tolerance, or the other way round.  The scene is first stepped from zero
+    fields for T steps with the already compiled stepper (scouting pass, no comparison), then the
+    random field is normalised to the source-driven maximum.  Returns (E, H, scale, scouting steps).
+    """
+    T = scene.T
+    st = stepper.fwd(stepper.state0(scene.arrays), T)
+    a = max(float(np.max(np.abs(np.array(st[1].fields.E)))), float(np.max(np.abs(np.array(st[1].fields.H)))))
+    E, H = random_init(scene, seed, scale=1.0)
+    m = max(float(np.max(np.abs(E))), float(np.max(np.abs(H))))
+    scale = a if (np.isfinite(a) and a > 1e-30) else fallback
+    if m > 0:
+        E, H = E * (scale / m), H * (scale / m)
+    return E, H, scale, T
+
+
 def run_real_loop(scene, arrays, cut, use_run_fdtd: bool):
     """Push `arrays` through the library's own loop; returns (final state, fired fault names).
 
@@ -493,6 +512,9 @@ def rand_scene(r, T=(5, 10), shape=(4, 6), even=False, pml=(2, 3), bloch_p=0.0, 
             s = specgen.rand_dipole(r, f"s{i}", shp, inner, Tn, allow_switch=switches)
         else:
             planes += 1
+        # a source that is (almost) never on makes the run trivial: keep only switches with >= 3 active steps
+        if s.get("switch") and sum(specgen.switch_on_list(s["switch"], Tn)) < 3:
+            s.pop("switch")
         srcs.append(s)
     spec["sources"] = srcs
     dets = []
